@@ -8,13 +8,21 @@
 (***************************************************************************)
 EXTENDS ZogData
 
+\* Named deviations of the key-resolution rules (TRUE = what the properties say). They are constants of the
+\* reference so that a known finding can be attributed: a trace is explained by a finding iff it is accepted
+\* when exactly that finding's switch is off.
+CONSTANTS
+  SwNestedSourceTag,      \* nested structs resolve keys with the source tag of their front end (C10)
+  SwEmptyRecordSourceTag, \* so does a struct whose record is absent or empty (nil, {}, missing)
+  SwFlatNested            \* a nested struct resolves its fields against the same flat source (C14)
+
 Iss(p, code, ty) == [path |-> PathStr(p), code |-> code, ty |-> ty]
 TIss(p, t, ty)   == [path |-> IF t.path # "" THEN t.path ELSE PathStr(p), code |-> t.code, ty |-> ty]
 
 \* ---- C10: which input key names a struct field ---------------------------
 \* Parse: source-specific tag, else zog tag, else the schema key; Validate: zog tag else key.
 SourceTag(kid, fe) ==
-  CASE fe = "json"  -> kid.tags.json
+  CASE fe \in {"json", "zhttpjson", "zjson"} -> kid.tags.json
     [] fe = "form"  -> kid.tags.form
     [] fe = "query" -> kid.tags.query
     [] fe = "env"   -> kid.tags.env
@@ -23,6 +31,21 @@ KeyOf(kid, fe, mode) ==
   IF mode = "parse" /\ SourceTag(kid, fe) # "" THEN SourceTag(kid, fe)
   ELSE IF kid.tags.zog # "" THEN kid.tags.zog
   ELSE kid.key
+
+\* ---- C14: flat sources (form, query string, environment) ------------------------------------------
+\* A flat source has no nested records: a nested struct's fields are resolved against the SAME source
+\* (as the documentation's zenv example shows); every other field is looked up by its key.
+Flat(fe) == fe \in {"form", "query", "env"}
+RECURSIVE IsRecordNode(_)
+IsRecordNode(node) == node.k = "struct" \/ (node.k = "ptr" /\ IsRecordNode(node.kids[1].node))
+\* flat sources answer a missing key with the empty string (url.Values.Get / os.Getenv)
+FlatMiss(v) == IF v.t = "missing" THEN Empty ELSE v
+ChildIn(fe, node, in, key) ==
+  IF Flat(fe) /\ IsRecordNode(node) THEN (IF SwFlatNested THEN in ELSE FlatMiss(Lookup(in, key)))
+  ELSE Lookup(in, key)
+ChildFe(fe) == IF SwNestedSourceTag THEN fe ELSE "map"
+EmptyRec(in) == in.t # "map" \/ \A j \in DOMAIN in.items : in.items[j].val.t = "missing"
+KeyOfIn(kid, fe, mode, in) == KeyOf(kid, IF ~SwEmptyRecordSourceTag /\ EmptyRec(in) THEN "map" ELSE fe, mode)
 
 \* issues of every failing test of a node on value v, in declaration order (C02)
 FailedTests(node, v, p) ==
@@ -61,8 +84,8 @@ RefParse(node, in, p, fe) ==
               LET F[i \in 0..Len(node.kids)] ==
                     IF i = 0 THEN <<>>
                     ELSE LET kid == node.kids[i]
-                             key == KeyOf(kid, fe, "parse")
-                         IN F[i - 1] \o RefParse(kid.node, Lookup(in, key), Append(p, key), fe)
+                             key == KeyOfIn(kid, fe, "parse", in)
+                         IN F[i - 1] \o RefParse(kid.node, ChildIn(fe, kid.node, in, key), Append(p, key), ChildFe(fe))
               IN F[Len(node.kids)] \o FailedTests(node, 0, p)
          ELSE <<Iss(p, "coerce", "struct")>>
     [] node.k = "slice" ->
@@ -145,8 +168,8 @@ RefDestParse(node, in, dp, d, fe) ==
               LET F[i \in 0..Len(node.kids)] ==
                     IF i = 0 THEN d
                     ELSE LET kid == node.kids[i]
-                             key == KeyOf(kid, fe, "parse")
-                         IN RefDestParse(kid.node, Lookup(in, key), Append(dp, kid.key), F[i - 1], fe)
+                             key == KeyOfIn(kid, fe, "parse", in)
+                         IN RefDestParse(kid.node, ChildIn(fe, kid.node, in, key), Append(dp, kid.key), F[i - 1], ChildFe(fe))
               IN F[Len(node.kids)]
          ELSE d
     [] node.k = "slice" ->
@@ -212,7 +235,7 @@ ValidP(node, in, d, dp, fe) ==
     [] node.k = "struct" ->
          /\ in.t \in {"map", "nil", "missing"}
          /\ \A i \in DOMAIN node.kids :
-              ValidP(node.kids[i].node, Lookup(in, KeyOf(node.kids[i], fe, "parse")), d, Append(dp, node.kids[i].key), fe)
+              ValidP(node.kids[i].node, ChildIn(fe, node.kids[i].node, in, KeyOfIn(node.kids[i], fe, "parse", in)), d, Append(dp, node.kids[i].key), ChildFe(fe))
          /\ AllPass(node, 0)
     [] node.k = "slice" ->
          IF ParseAbsent(in) /\ node.def = None THEN ~node.req
@@ -260,8 +283,8 @@ OwnPaths(node, p) == {PathStr(p)} \cup {node.tests[i].path : i \in {j \in DOMAIN
 CatchPathsP(node, in, p, fe) ==
   CASE node.k = "prim" -> IF node.catch # None THEN OwnPaths(node, p) ELSE {}
     [] node.k = "struct" ->
-         UNION {CatchPathsP(node.kids[i].node, Lookup(in, KeyOf(node.kids[i], fe, "parse")),
-                            Append(p, KeyOf(node.kids[i], fe, "parse")), fe) : i \in DOMAIN node.kids}
+         UNION {CatchPathsP(node.kids[i].node, ChildIn(fe, node.kids[i].node, in, KeyOfIn(node.kids[i], fe, "parse", in)),
+                            Append(p, KeyOfIn(node.kids[i], fe, "parse", in)), ChildFe(fe)) : i \in DOMAIN node.kids}
     [] node.k = "slice" ->
          LET src == IF ParseAbsent(in) THEN (IF node.def = None THEN <<>> ELSE DefaultList(node).items)
                     ELSE IF in.t = "list" THEN in.items ELSE <<Ent("", in)>>
